@@ -1,4 +1,4 @@
-"""C03 -- local schedulers compute exactly the values the graph denotes (DESIGN 5/C03)."""
+"""C03 -- intermediate results are never released early and never leaked (DESIGN 5/C03); shares the exhaustive completion-order sweep of C01."""
 from mc.props import _sweep
 
 ID = "C03"
